@@ -259,6 +259,15 @@ def _z3_decl_name_str(ctx, decl):
     return z3.Z3_get_symbol_string_bytes(ctx, decl_name)
 
 
+def _z3_string_literal(value, ctx):
+    """
+    The Z3 string literal with exactly the characters of `value` (built from code points: z3.StringVal, and z3py's
+    coercion of Python strings, interpret escape sequences such as \\u{48} in the text).
+    """
+    chars = (ctypes.c_uint * len(value))(*map(ord, value))
+    return z3.SeqRef(z3.Z3_mk_u32string(ctx.ref(), len(value), chars), ctx)
+
+
 def _z3_string_value(ctx, ast):
     """
     The characters of a Z3 string literal, read as code points (its printed form escapes NUL, non-ASCII, ...).
@@ -507,11 +516,7 @@ class BackendZ3(Backend):
 
     @condom
     def StringV(self, ast):
-        # build the literal from code points: z3.StringVal would interpret escape sequences such as \\u{48} in the text
-        value = ast.args[0]
-        chars = (ctypes.c_uint * len(value))(*map(ord, value))
-        ctx = self._context
-        return z3.SeqRef(z3.Z3_mk_u32string(ctx.ref(), len(value), chars), ctx)
+        return _z3_string_literal(ast.args[0], self._context)
 
     @condom
     def StringS(self, ast):
@@ -955,12 +960,13 @@ class BackendZ3(Backend):
 
                 # Construct the extra constraint so we don't get the same result anymore
                 if i + 1 != n:
+                    known = [_z3_string_literal(v, self._context) if isinstance(v, str) else v for v in r]
                     if len(exprs) == 1:
-                        solver.add(exprs[0] != r[0])
+                        solver.add(exprs[0] != known[0])
                     else:
                         solver.add(
                             self._op_raw_Not(
-                                self._op_raw_And(*[(ex == ex_v) for ex, ex_v in zip(exprs, r, strict=False)])
+                                self._op_raw_And(*[(ex == ex_v) for ex, ex_v in zip(exprs, known, strict=False)])
                             )
                         )
                     model = None
